@@ -15,6 +15,7 @@
 
 #include "vport.h"
 #include "lltdBlock.h"
+#include "lltdAutomata.h"
 
 #define MAXF 4096
 typedef struct { uint8_t *p; size_t n; } frame_t;
@@ -58,6 +59,49 @@ typedef struct {
 
 extern VP_TLS vp_ledger vp_led;
 
+/* Each daemon thread builds the automata of its interface before it serves frames: construct them, fold their public
+ * tables and a short walk of the session automaton into the trace hash, release them. */
+static uint64_t fold(uint64_t h, uint64_t v) { return (h ^ v) * 1099511628211ull; }
+
+static void automata_round(void) {
+    automata *m = init_automata_mapping(), *s = init_automata_session(), *e = init_automata_enumeration();
+    session_table *t = session_table_create();
+    automata *all[3] = {m, s, e};
+    uint64_t h = t_hash;
+    for (int a = 0; a < 3; a++) {
+        automata *x = all[a];
+        if (!x) { h = fold(h, 0xdead); continue; }
+        h = fold(h, x->states_no); h = fold(h, x->transitions_no); h = fold(h, x->current_state);
+        for (int i = 0; i < x->states_no && i < MAX_STATES; i++) h = fold(h, (uint64_t)(int64_t)x->states_table[i].timeout);
+        for (int i = 0; i < x->transitions_no && i < MAX_TRANSITIONS; i++) {
+            h = fold(h, x->transitions_table[i].from); h = fold(h, x->transitions_table[i].to);
+            h = fold(h, (uint64_t)(int64_t)x->transitions_table[i].with);
+        }
+    }
+    if (s) {
+        static const int walk[] = {sess_discover_noack, sess_discover_acking, sess_discover_noack_chgd_xid, sess_reset, sess_discover_acking, sess_hello};
+        for (unsigned i = 0; i < sizeof(walk) / sizeof(walk[0]); i++) { switch_state_session(s, walk[i], "t"); h = fold(h, s->current_state); }
+    }
+    if (m) { switch_state_mapping(m, 0, "t"); h = fold(h, m->current_state); switch_state_mapping(m, 2, "t"); h = fold(h, m->current_state); }
+    if (t) { uint8_t mac[6] = {2, 1, 2, 3, 4, 5}; session_table_add(t, mac, 1, 1); h = fold(h, (uint64_t)t->count); }
+    for (int a = 0; a < 3; a++) if (all[a]) { lltd_port_free(all[a]->extra); lltd_port_free(all[a]); }
+    session_table_destroy(t);
+    t_hash = h;
+}
+
+/* The very first automata of the process, built by two threads at once (each daemon thread sets up its interface). */
+static pthread_barrier_t first_bar;
+static uint64_t first_hash[2];
+static void *first_construction(void *arg) {
+    int t = (int)(intptr_t)arg;
+    t_hash = 1469598103934665603ull;
+    vp_now_ms = 1000;
+    pthread_barrier_wait(&first_bar);
+    automata_round();
+    first_hash[t] = t_hash;
+    return NULL;
+}
+
 static void run_history(job_t *j) {
     vp_iface *f = j->ifc;
     t_hash = 1469598103934665603ull;
@@ -74,6 +118,7 @@ static void run_history(job_t *j) {
             pthread_barrier_wait(j->bar);
             clock_gettime(CLOCK_MONOTONIC, &j->t0);
         }
+        if (k == 0) automata_round();
         parseFrame(f->rxbuf, f);
         if (k == 0 && j->threaded) clock_gettime(CLOCK_MONOTONIC, &j->t1);
         /* trace: frames (hashed by the hook), number of sends and total sleep per input */
@@ -127,6 +172,8 @@ int main(int argc, char **argv) {
     char *line = NULL;
     size_t cap = 0;
     static uint8_t icon[3000], host[16], fname[40];
+    static const uint8_t hwid[] = "T\0H\0R\0E\0A\0D\0S\0-\0H\0W\0-\0000\0001\0";
+    vp_glob.hwid.p = (uint8_t *)hwid; vp_glob.hwid.len = sizeof(hwid) - 1;
     vp_fill_stream(icon, sizeof(icon), 9); vp_fill_stream(fname, sizeof(fname), 10);
     memcpy(host, "threads-host", 12);
     vp_glob.icon.p = icon; vp_glob.icon.len = sizeof(icon);
@@ -158,6 +205,20 @@ int main(int argc, char **argv) {
     vp_opt_sleep = 0;
     vp_send_hook = hook;
     vp_verif_cb = verif_cb;
+
+    {
+        pthread_t th[2];
+        pthread_barrier_init(&first_bar, NULL, 2);
+        for (int t = 0; t < 2; t++) pthread_create(&th[t], NULL, first_construction, (void *)(intptr_t)t);
+        for (int t = 0; t < 2; t++) pthread_join(th[t], NULL);
+        pthread_barrier_destroy(&first_bar);
+        t_hash = 1469598103934665603ull;
+        vp_now_ms = 1000;
+        automata_round();                /* the same, later and alone */
+        int bad = (first_hash[0] != t_hash) + (first_hash[1] != t_hash);
+        printf("STAT first_constructions 2\nSTAT first_construction_diffs %d\n", bad);
+        if (bad) printf("DIFF round=0 thread=%d class=automata-built-concurrently-differ allocs=0 solo_allocs=0\n", first_hash[0] != t_hash ? 0 : 1);
+    }
 
     /* solo reference traces, each history alone on a fresh context */
     job_t solo[2];
